@@ -29,6 +29,7 @@ TECHNIQUE += '; contract of semantics_call with falsy action results and falsy r
 LEVEL_TEXT += " Added clause: whatever the action returns (0, '', [], None) is the rule value; without an action the value itself."
 TECHNIQUE += '; the semantics object stored on a cached model is part of the cache key (= C10.R1 stored-parameter clause)'
 LEVEL_TEXT += ' Added clause: the actions that run are those of the object supplied to this compile().'
+TECHNIQUE += '; foreign exceptions pass the negative lookahead (= C01.R7b)'
 LEVEL_NOTE = ('Trusted: call-graph resolution (unresolved value calls are assumed to reach actions); exception hierarchy '
               'read from tatsu/exceptions.py.')
 EXPLANATION = ('Static analysis of /repo sources, TatSu not imported. rule_call/semantics_call are executed abstractly with '
